@@ -10,8 +10,12 @@
  *              T1=1 bitmap all zero except CARD1 (<= 2) symbolic members   (reachable: bitmap, Clear, Add)
  *              T1=2 runs   NR1 (<= 2) symbolic runs, capacity RCAP1; CCARD1 >= 0 fixes the total cardinality
  *   OP         0 observe  1 Add(a)  2 Remove(a)  3 Clear  4 Clone  5 Encode->Decode
- *              10 AddRange(a,b)     restricted to: empty range, length <= 2, or length > ARRAY_MAX on an empty set
- *              11 RemoveRange(a,b)  restricted to: empty range or length <= 2
+ *              10 AddRange(a,b) longer than ARRAY_MAX on an EMPTY set (the single-run shortcut), or an empty range
+ *              12 AddRange(a,b) and 13 RemoveRange(a,b) of length <= ARRAY_MAX + 4 (AddRange: except the shortcut case),
+ *                 MODULAR: under CBMC the driver redirects varintBitmapAdd / varintBitmapRemove to contract_step
+ *                 (Query(replace_calls=...)), which checks that the caller applies the callee to exactly a, a+1, ..., b-1,
+ *                 in order, on the same and otherwise untouched object; natively (replay) the real callee runs and the
+ *                 real result is compared.  In particular ranges just longer than 4096 on NON-EMPTY sets.
  *   not run on a bitmap-typed state (65536-step loops): iterator, ToArray, Remove of a member (bitmap -> array).
  */
 #include "vp.h"
@@ -46,7 +50,7 @@
 
 typedef struct desc {
     unsigned n;
-    uint32_t s[MAXIV], l[MAXIV]; /* [s, s+l), ascending by s, disjoint, l may be 0 */
+    uint32_t s[MAXIV], l[MAXIV]; /* [s, s+l), pairwise disjoint, any order, l may be 0 */
 } desc;
 static bool d_in(const desc *d, uint32_t x) {
     for (unsigned i = 0; i < MAXIV; i++)
@@ -61,43 +65,21 @@ static uint32_t d_card(const desc *d) {
             c += d->l[i];
     return c;
 }
-/* k-th member (0-based) */
-static bool d_nth(const desc *d, uint32_t k, uint32_t *out) {
-    for (unsigned i = 0; i < MAXIV; i++)
-        if (i < d->n) {
-            if (k < d->l[i]) {
-                *out = d->s[i] + k;
-                return true;
-            }
-            k -= d->l[i];
-        }
-    return false;
-}
-static void d_insert_at(desc *d, unsigned p, uint32_t s, uint32_t l) {
-    for (unsigned i = MAXIV - 1; i > 0; i--)
-        if (i > p && i <= d->n) {
-            d->s[i] = d->s[i - 1];
-            d->l[i] = d->l[i - 1];
-        }
-    d->s[p] = s;
-    d->l[p] = l;
+static void d_append(desc *d, uint32_t s, uint32_t l) {
+    d->s[d->n] = s;
+    d->l[d->n] = l;
     d->n++;
 }
 static void d_add(desc *d, uint32_t a) {
-    if (d_in(d, a))
-        return;
-    unsigned p = 0;
-    for (unsigned i = 0; i < MAXIV; i++)
-        if (i < d->n && d->s[i] < a)
-            p = i + 1;
-    d_insert_at(d, p, a, 1);
+    if (!d_in(d, a))
+        d_append(d, a, 1);
 }
 static void d_remove(desc *d, uint32_t a) {
     for (unsigned i = 0; i < MAXIV; i++)
         if (i < d->n && a >= d->s[i] && a - d->s[i] < d->l[i]) {
             uint32_t e = d->s[i] + d->l[i];
             d->l[i] = a - d->s[i];
-            d_insert_at(d, i + 1, a + 1, e - (a + 1));
+            d_append(d, a + 1, e - (a + 1));
             return;
         }
 }
@@ -170,7 +152,12 @@ static bool r_wf(const varintBitmap *vb) {
     return false;
 }
 
-static void check_state(const varintBitmap *vb, const desc *E, uint16_t x) {
+#define OBS_ITER 2
+#define OBS_ARRAY 4
+#ifndef OBS
+#define OBS 6
+#endif
+static void check_state(const varintBitmap *vb, const desc *E, uint16_t x, int what) {
     VP_ASSERT("P:real.wf", r_wf(vb));
     VP_ASSERT("P:real.value", r_member(vb, x) == d_in(E, x));
     VP_ASSERT("P:real.obs.contains", varintBitmapContains(vb, x) == d_in(E, x));
@@ -178,38 +165,117 @@ static void check_state(const varintBitmap *vb, const desc *E, uint16_t x) {
     VP_ASSERT("P:real.obs.is_empty", varintBitmapIsEmpty(vb) == (d_card(E) == 0));
     if (vb->type == VARINT_BITMAP_BITMAP)
         return;
-    varintBitmapIterator it = varintBitmapCreateIterator(vb);
-    for (unsigned k = 0; k <= KMAX; k++) {
-        uint32_t want = 0;
-        bool have = d_nth(E, k, &want);
-        if (!have) {
-            VP_ASSERT("P:real.obs.iter_ends", !varintBitmapIteratorNext(&it));
-            VP_ASSERT("P:real.obs.iter_stays_ended", !varintBitmapIteratorNext(&it));
-            break;
+    /* The iterator delivers exactly the members in ascending order: every delivered value is a member and larger
+     * than the previous one, and no member (probe x = any value) lies before the first, between two consecutive
+     * ones, or after the last.  Only the first KMAX deliveries of longer sets are followed. */
+    bool inx = d_in(E, x);
+    if (what & OBS_ITER) {
+        varintBitmapIterator it = varintBitmapCreateIterator(vb);
+        int32_t prev = -1;
+        for (unsigned k = 0; k <= KMAX; k++) {
+            if (!varintBitmapIteratorNext(&it)) {
+                VP_ASSERT("P:real.obs.iter_complete", !(inx && (int32_t)x > prev) && k == d_card(E));
+                VP_ASSERT("P:real.obs.iter_stays_ended", !varintBitmapIteratorNext(&it));
+                break;
+            }
+            int32_t cur = it.currentValue;
+            VP_ASSERT("P:real.obs.iter_member", d_in(E, (uint32_t)cur));
+            VP_ASSERT("P:real.obs.iter_ascending", cur > prev);
+            VP_ASSERT("P:real.obs.iter_skips_nothing", !(inx && (int32_t)x > prev && (int32_t)x < cur));
+            prev = cur;
         }
-        if (k == KMAX)
-            break; /* longer sets: only the first KMAX members are compared */
-        VP_ASSERT("P:real.obs.iter_next", varintBitmapIteratorNext(&it) && it.currentValue == want);
     }
-    if (d_card(E) <= KMAX) {
+    if ((what & OBS_ARRAY) && d_card(E) <= KMAX) {
         uint16_t out[KMAX + 1];
         for (unsigned i = 0; i <= KMAX; i++)
             out[i] = 0xAAAA;
-        uint16_t probe = 0xAAAA;
+        uint16_t untouched = 0xAAAA;
         uint32_t n = varintBitmapToArray(vb, out);
         VP_ASSERT("P:real.obs.toarray_count", n == d_card(E));
         for (unsigned i = 0; i <= KMAX; i++) {
-            uint32_t want = 0;
-            if (d_nth(E, i, &want))
-                VP_ASSERT("P:real.obs.toarray_value", out[i] == want);
-            else
-                VP_ASSERT("P:real.obs.toarray_tail_untouched", out[i] == probe);
+            if (i < n) {
+                /* n distinct members of a set of n elements = the whole set */
+                VP_ASSERT("P:real.obs.toarray_member", d_in(E, out[i]));
+                if (i)
+                    VP_ASSERT("P:real.obs.toarray_ascending", out[i] > out[i - 1]);
+            } else
+                VP_ASSERT("P:real.obs.toarray_tail_untouched", out[i] == untouched);
         }
     }
 }
 
+#if OP == 12 || OP == 13
+/* ghost of the modular range queries */
+static unsigned g_calls;
+static const varintBitmap *g_obj;
+static uint32_t g_next;
+static const desc *g_pre;
+static varintBitmapContainerType g_type;
+static uint32_t g_card;
+static const void *g_store;
+static void contract_step(const varintBitmap *vb, uint16_t v) {
+    if (g_calls == 0) {
+        g_obj = vb;
+        VP_ASSERT("P:mod.callee_pre_wf", r_wf(vb));
+        g_type = vb->type;
+        g_card = vb->cardinality;
+        g_store = vb->container.array.values;
+    } else {
+        VP_ASSERT("P:mod.callee_same_object", vb == g_obj);
+        VP_ASSERT("P:mod.object_only_changed_by_callee",
+                  vb->type == g_type && vb->cardinality == g_card && (const void *)vb->container.array.values == g_store);
+    }
+    VP_ASSERT("P:real.range.each_value_once_in_order", v == g_next);
+    g_next++;
+    g_calls++;
+}
+bool contract_add_real(varintBitmap *vb, uint16_t v) {
+    contract_step(vb, v);
+    return !d_in(g_pre, v);
+}
+bool contract_remove_real(varintBitmap *vb, uint16_t v) {
+    contract_step(vb, v);
+    return d_in(g_pre, v);
+}
+/* r_member for results with up to ARRAY_MAX array entries (only evaluated on the non-modular path) */
+static bool r_member4096(const varintBitmap *vb, uint32_t x) {
+    if (vb->type != VARINT_BITMAP_ARRAY)
+        return r_member(vb, x);
+#ifdef VP_NATIVE
+    for (uint32_t i = 0; i < vb->cardinality && i < VARINT_BITMAP_ARRAY_MAX; i++)
+        if (vb->container.array.values[i] == x)
+            return true;
+    return false;
+#else
+    return vb->cardinality <= MAXIV && r_member(vb, x);
+#endif
+}
+/* members of d inside [a, b) */
+static uint32_t d_overlap(const desc *d, uint32_t a, uint32_t b) {
+    uint32_t c = 0;
+    for (unsigned i = 0; i < MAXIV; i++)
+        if (i < d->n) {
+            uint32_t lo = d->s[i] > a ? d->s[i] : a, hi = d->s[i] + d->l[i] < b ? d->s[i] + d->l[i] : b;
+            if (hi > lo)
+                c += hi - lo;
+        }
+    return c;
+}
+#endif
+
 void harness(void) {
-    VP_IN_ARR(uint16_t, in1, NIN);
+    /* Contents of the pre-state are drawn from five 16-value windows placed at the numeric edges (0, the byte
+     * boundary 256, ARRAY_MAX 4096, the sign boundary 32768, the top of uint16_t): value = base[sel] + low.
+     * (Unconstrained 16-bit contents make the comparator chains of the sorted containers too hard for the SAT
+     * solver: no verdict in 10 minutes for 4 members.)  The operands a, b and the probe x stay full 16-bit. */
+    VP_IN_ARR(uint8_t, sel1, NIN);
+    VP_IN_ARR(uint8_t, low1, NIN);
+    static const uint32_t base[5] = {0, 248, 4088, 32760, 65520};
+    uint32_t in1[NIN];
+    for (unsigned i = 0; i < NIN; i++) {
+        VP_ASSUME(sel1[i] < 5 && low1[i] < 16);
+        in1[i] = base[sel1[i]] + low1[i];
+    }
     VP_IN(uint16_t, a);
     VP_IN(uint16_t, b);
     VP_IN(uint16_t, x);
@@ -229,7 +295,7 @@ void harness(void) {
 #if T1 == 0
     uint16_t *v = malloc(CAP1 * sizeof(uint16_t));
     for (unsigned i = 0; i < CARD1; i++)
-        v[i] = in1[i];
+        v[i] = (uint16_t)in1[i];
     vb->type = VARINT_BITMAP_ARRAY;
     vb->container.array.values = v;
     vb->container.array.capacity = CAP1;
@@ -245,8 +311,10 @@ void harness(void) {
     uint16_t *r = malloc(RCAP1 * 2 * sizeof(uint16_t));
     uint32_t end = 0, c = 0;
     for (unsigned i = 0; i < NR1; i++) {
-        uint32_t s = in1[2 * i], l = in1[2 * i + 1];
-        VP_ASSUME(l >= 1 && s + l <= 65536);
+        /* run [s, e): e is drawn from the windows shifted by one, so that e = 65536 is possible */
+        uint32_t s = in1[2 * i], e = in1[2 * i + 1] + 1;
+        VP_ASSUME(s < e && e - s <= 65535);
+        uint32_t l = e - s;
         if (i)
             VP_ASSUME(s > end);
         r[2 * i] = (uint16_t)s;
@@ -267,13 +335,14 @@ void harness(void) {
 #endif
     VP_ASSERT("P:harness.pre_wf", r_wf(vb) && r_member(vb, x) == d_in(&D, x) && vb->cardinality == d_card(&D));
     desc E = D;
+    (void)E;
 #if OP == 0
-    check_state(vb, &E, x);
+    check_state(vb, &E, x, OBS);
 #elif OP == 1
     bool ret = varintBitmapAdd(vb, a);
     VP_ASSERT("P:real.add.truthful", ret == !d_in(&D, a));
     d_add(&E, a);
-    check_state(vb, &E, x);
+    check_state(vb, &E, x, OBS);
 #elif OP == 2
 #if T1 == 1
     VP_ASSUME(!d_in(&D, a)); /* a hit converts the bitmap back to an array: 65536-step loop, covered scaled */
@@ -281,16 +350,16 @@ void harness(void) {
     bool ret = varintBitmapRemove(vb, a);
     VP_ASSERT("P:real.remove.truthful", ret == d_in(&D, a));
     d_remove(&E, a);
-    check_state(vb, &E, x);
+    check_state(vb, &E, x, OBS);
 #elif OP == 3
     varintBitmapClear(vb);
     E.n = 0;
-    check_state(vb, &E, x);
+    check_state(vb, &E, x, OBS);
 #elif OP == 4
     varintBitmap *cl = varintBitmapClone(vb);
     VP_ASSERT("P:real.clone.fresh", cl != NULL && cl != vb &&
                                         (void *)cl->container.array.values != (void *)vb->container.array.values);
-    check_state(cl, &E, x);
+    check_state(cl, &E, x, OBS);
     VP_ASSERT("P:real.clone.operand_unchanged",
               r_wf(vb) && r_member(vb, x) == d_in(&D, x) && vb->cardinality == d_card(&D));
 #elif OP == 5
@@ -308,34 +377,44 @@ void harness(void) {
               r_wf(vb) && r_member(vb, x) == d_in(&D, x) && vb->cardinality == d_card(&D));
     varintBitmap *dec = varintBitmapDecode(buf, n);
     VP_ASSERT("P:real.encdec.fresh", dec != NULL && dec != vb);
-    check_state(dec, &E, x);
+    check_state(dec, &E, x, OBS);
 #elif OP == 10
-    VP_ASSUME(a >= b || b - a <= 2 || (b - a > VARINT_BITMAP_ARRAY_MAX && d_card(&D) == 0));
+    VP_ASSUME(a >= b || (b - a > VARINT_BITMAP_ARRAY_MAX && d_card(&D) == 0));
     varintBitmapAddRange(vb, a, b);
     if (a < b) {
-        if (b - a <= 2) {
-            d_add(&E, a);
-            if (b - a == 2)
-                d_add(&E, (uint32_t)a + 1);
-        } else {
-            E.n = 1;
-            E.s[0] = a;
-            E.l[0] = (uint32_t)b - a;
-        }
+        E.n = 1;
+        E.s[0] = a;
+        E.l[0] = (uint32_t)b - a;
     }
-    check_state(vb, &E, x);
-#elif OP == 11
-    VP_ASSUME(a >= b || b - a <= 2);
-#if T1 == 1
-    VP_ASSUME(a >= b || (!d_in(&D, a) && (b - a < 2 || !d_in(&D, (uint32_t)a + 1))));
+    check_state(vb, &E, x, OBS);
+#elif OP == 12 || OP == 13
+    VP_ASSUME(a < b && b - a <= VARINT_BITMAP_ARRAY_MAX + 4);
+#if OP == 12
+    VP_ASSUME(!(b - a > VARINT_BITMAP_ARRAY_MAX && d_card(&D) == 0)); /* that case: OP 10 */
 #endif
+    g_pre = &D;
+    g_next = a;
+#if OP == 12
+    varintBitmapAddRange(vb, a, b);
+    bool want = d_in(&D, x) || (x >= a && x < b);
+    uint32_t wantcard = d_card(&D) + ((uint32_t)b - a) - d_overlap(&D, a, b);
+#else
     varintBitmapRemoveRange(vb, a, b);
-    if (a < b) {
-        d_remove(&E, a);
-        if (b - a == 2)
-            d_remove(&E, (uint32_t)a + 1);
+    bool want = d_in(&D, x) && !(x >= a && x < b);
+    uint32_t wantcard = d_card(&D) - d_overlap(&D, a, b);
+#endif
+    if (g_calls) {
+        /* by the callee's contract the object now holds the wanted set provided the callee was applied to every value */
+        VP_ASSERT("P:real.range.whole_range", g_obj == vb && g_next == b);
+        VP_ASSERT("P:mod.object_only_changed_by_callee",
+                  r_wf(vb) && r_member(vb, x) == d_in(&D, x) && vb->cardinality == d_card(&D));
+    } else {
+        /* native replay, or a caller that did the work itself: compare the real result.  (r_wf is not used here: it
+         * bounds arrays to MAXIV members, which a correct result may exceed.) */
+        VP_ASSERT("P:real.range.value", r_member4096(vb, x) == want);
+        VP_ASSERT("P:real.range.contains", varintBitmapContains(vb, x) == want);
+        VP_ASSERT("P:real.range.cardinality", varintBitmapCardinality(vb) == wantcard);
     }
-    check_state(vb, &E, x);
 #else
 #error "OP"
 #endif
